@@ -1,0 +1,10 @@
+//go:build !verif
+// +build !verif
+
+package runtime
+
+// Verification hooks are compiled out unless the "verif" build tag is set.
+
+func verifCtx(kind string, ctx RuntimeContext, def *RuntimeContextDef, a, b uint64) {}
+
+func verifThread(kind string, t *Thread, other *Thread) {}
